@@ -271,8 +271,13 @@ def op_expand(c, sl, N):
   t1 = c.real('sec1_t', 0)
   c.assume(t1 < info['tt'])
   c.assume(t1 > 0)
-  ns.section_annotations.add(time=0, section_id=0)
-  ns.section_annotations.add(time=t1, section_id=1)
+  if c.params.get('reversed_annotations'):
+    # stored out of time order: the call may raise, the input must stay as is
+    ns.section_annotations.add(time=t1, section_id=1)
+    ns.section_annotations.add(time=0, section_id=0)
+  else:
+    ns.section_annotations.add(time=0, section_id=0)
+    ns.section_annotations.add(time=t1, section_id=1)
   g = ns.section_groups.add(num_times=2)
   g.sections.add(section_id=0)
   g2 = ns.section_groups.add(num_times=1)
@@ -393,6 +398,7 @@ def jobs(tier):
     add('split_list', N=1, skip=skip, shared_time=True)
     add('split_hop', N=1, skip=skip, shared_time=True)
     add('split_changes', N=1, skip=skip, shared_time=True)
+  add('expand', N=1, shared_time=True, reversed_annotations=True)
   add('quantize_rel', N=1, spq=4)
   add('quantize_abs', N=1, sps=100)
   # two notes where that costs seconds (sustain and the _extract_subsequences
